@@ -3,11 +3,12 @@
 // Oracle: load==0 -> wf_check (independent transcription of the statement) + hwloc_topology_check();
 //         load==-1 -> the topology can be re-configured and loaded again; configuration calls return per the documented rules.
 #include "topogen.hpp"
+#include "genxml.hpp"
 
 void h_configure(HConfig &cfg) {
   cfg.property = "C01"; cfg.name = "c01_load";
-  cfg.rule = "case = (source, flags, filters) drawn from TopoSpec; non-trivial = load succeeded AND (a non-default filter or flag was active, or the topology is asymmetric / has I/O / has a CPU-less NUMA node); distinct by hash of the decoded case text";
-  cfg.head_len = 320; cfg.op_len = 1; cfg.max_ops = 1; cfg.leak_check = true;
+  cfg.rule = "case = (source, flags, filters) drawn from TopoSpec (synthetic description, stored XML file, this machine, or - 1 in 4 - an XML document generated from an abstract tree and compared with it after a load that keeps everything); non-trivial = load succeeded AND (a non-default filter or flag was active, or the topology is asymmetric / has I/O / has a CPU-less NUMA node); distinct by hash of the decoded case text";
+  cfg.head_len = 900; cfg.op_len = 1; cfg.max_ops = 1; cfg.leak_check = true;
 }
 
 void h_run(Case &c) {
@@ -18,6 +19,10 @@ void h_run(Case &c) {
   if (d.chance(1, 14)) { sp.is_native = true; sp.is_xml = false; sp.synth.clear();
     if (d.chance(1, 3)) sp.flags |= HWLOC_TOPOLOGY_FLAG_THISSYSTEM_ALLOWED_RESOURCES;
     if (d.chance(1, 4)) sp.flags |= HWLOC_TOPOLOGY_FLAG_IS_THISSYSTEM | (d.chance(1, 2) ? HWLOC_TOPOLOGY_FLAG_RESTRICT_TO_CPUBINDING : HWLOC_TOPOLOGY_FLAG_RESTRICT_TO_MEMBINDING); }
+  // one case in 4: a document generated from an abstract tree (asymmetric trees, memory at several levels, offline / disallowed resources,
+  // optional attributes left out, shuffled gp_index, Misc and I/O anywhere); it is consistent by construction, so it must load
+  GenXml gx; bool use_gx = !sp.is_native && d.chance(1, 4);
+  if (use_gx) { gx = gen_xml(d); sp.is_xml = true; sp.synth.clear(); sp.xmlbuf = gx.text; sp.xmlbuf_summary = gx.summary; if (sp.flags & HWLOC_TOPOLOGY_FLAG_IS_THISSYSTEM) sp.flags &= ~(unsigned long)HWLOC_TOPOLOGY_FLAG_IS_THISSYSTEM; }
   c.desc(sp.text());
   hwloc_topology_t t;
   CHECK(c, hwloc_topology_init(&t) == 0, "init", "hwloc_topology_init failed");
@@ -35,7 +40,8 @@ void h_run(Case &c) {
   }
 
   int r = apply_spec_and_load(c, t, sp);
-  c.cls(sp.is_native ? "source:this-machine" : sp.is_xml ? "source:xml" : "source:synthetic");
+  c.cls(sp.is_native ? "source:this-machine" : use_gx ? "source:generated-xml" : sp.is_xml ? "source:xml" : "source:synthetic");
+  if (use_gx) { CHECK(c, r == 0, "genxml_load", "a consistent generated document does not load with this configuration (errno %d)", errno); if (gx.asym) c.cls("genxml:asymmetric"); if (!gx.has_allowed_attrs) c.cls("genxml:no-allowed-attrs"); if (!gx.offline_c.empty() || !gx.offline_n.empty()) c.cls("genxml:offline"); if (gx.multi_numa_obj) c.cls("genxml:several-numa-per-object"); }
   if (r == 0) {
     c.cls("load:ok");
     require_wf(c, t, "after load");
@@ -64,6 +70,7 @@ void h_run(Case &c) {
     require_wf(c, t, "after reload");
   }
   hwloc_topology_destroy(t);
+  if (use_gx) gx_fidelity(c, gx);
 }
 
 // ---- deterministic regression cases (reproducers of findings; independent of the generators) ---------------------------
